@@ -226,8 +226,9 @@ func (g *gen) terminate(out []tok, next string, strict, free bool) []tok {
 	if kwEnd {
 		return append(out, semi)
 	}
-	if strings.HasPrefix(last.coq, "TAtom (ARegex") && next != "}" && next != "" {
-		// otto takes an identifier after white space as the flags of the literal (recorded finding C03-regexp-flags-detached)
+	if strings.HasPrefix(last.coq, "TAtom (ARegex") && next != "}" && next != "" && isIdentChar(firstRune(next)) &&
+		!realKeywords[next] && next != "this" && next != "null" && next != "true" && next != "false" {
+		// otto takes an IDENTIFIER after white space as the flags of the literal (recorded finding C03-regexp-flags-detached)
 		return append(out, semi)
 	}
 	style := g.semiStyle
@@ -602,7 +603,9 @@ func (g *gen) stmtList(d int, c ctx, sourceElements bool, n int) []*N {
 	return out
 }
 
-func (g *gen) block(d int, c ctx) *N { return &N{Tag: tBlock, Kids: g.stmtList(d-1, c, false, g.r.Intn(3))} }
+func (g *gen) block(d int, c ctx) *N {
+	return &N{Tag: tBlock, Kids: g.stmtList(d-1, c, false, g.r.Intn(3))}
+}
 
 func (g *gen) simpleExprStmt(d int) *N {
 	return nd(tExprS, nil, g.exprFull(1+g.r.Intn(imax(1, d))))
